@@ -35,6 +35,10 @@ def _lists():
 
 
 def check(ctx):
+    # positional parameters keep their documented positions (a reordering survives every keyword call)
+    from ..sigrules import signatures as _signatures
+
+    _signatures(ctx, "R-SIG", functions=('skmatter.metrics.local_prediction_rigidity', 'skmatter.metrics.componentwise_prediction_rigidity'))
     P = ctx.P
     N = ctx.normalizer()
     alpha = scalar("alpha", 0, None)
